@@ -18,6 +18,10 @@ sources (also a set handed to a function that iterates over the parameter receiv
 cases with several loads that one process performs one after the other and whose lists of variable files share
 files; every process performs them in its own order, each load first in one of them.
 
+ONE configuration object that is constructed and then RE-PARAMETRIZED (cfg cases: in-memory FlowIR, FlowIR file, DSL 2.0,
+DOSINI) must answer every call like a fresh load (Det.Reparam), and a DOSINI INSTANCE directory (both flavours of the
+stage files) must load the same under every directory listing order (inst cases) - see c15_reuse.py.
+
 "Every process" is represented by: 6 processes (hash seeds 0,1,2,3,random,4; six key orders of every
 document; six creation orders of every file set) on the implementation side, and by "every permutation
 oracle at the modelled sites" on the Coq side."""
@@ -2064,7 +2068,16 @@ def run(ctx):
                 'answer of the real can_template_replicate vs Det.Replicate.can_replicate, and the namespace as generated '
                 'and key-permuted must be accepted alike and compile to the same FlowIR (also asked of every s5 / naming '
                 'namespace); non-trivial = a step with several reference-holding args whose producers are of >= 2 kinds.  '
-                'dsl replicate pkg = such a namespace as a package on disk, loaded replicated in the 6 processes')
+                'dsl replicate pkg = such a namespace as a package on disk, loaded replicated in the 6 processes.  '
+                'cfg case = ONE configuration object of an in-memory FlowIRConcrete / DOSINI / FlowIR-file / DSL 2.0 '
+                'package answering 3-5 calls (0-5 variable files: none, subsets, reversed, same options again; platform '
+                'default / plat): process v constructs it with call v mod n and re-parametrizes it with the others, every '
+                'answer byte-identical to a fresh load in another process and equal to Det.Reparam.answers; non-trivial = '
+                '>= 2 different option sets.  inst case = DOSINI package instantiated by experimentFromPackage with user '
+                'variable files / platform, then package / package flavour of the instance / instance flavour loaded; '
+                'non-trivial = both flavours of a stage file present and the flavours serve different values.  Every child '
+                'process lists directories in its own order (file system, ascending, descending, rotated, even-odd, '
+                'odd-even reversed)')
     quick = ctx.tier == 'quick'
     vars_cases = [c for c in corpus_cases() if c['kind'] == 'vars']
     pkg_cases = [c for c in corpus_cases() if c['kind'] == 'pkg']
